@@ -690,6 +690,12 @@ def i_flush(ins, fmap):
 
 
 @__pcnpc
+def i_stbar(ins, fmap):
+    # store barrier: no effect on the modelled state
+    pass
+
+
+@__pcnpc
 def i_FPop1(ins, fmap):
     raise NotImplementedError
 
